@@ -444,4 +444,249 @@ theorem setKeyNth_beyond (w : Wrapped) : ∀ (l : List ProfileRow), setKeyNth w 
   | nil => rfl
   | cons a l ihl => simp [setKeyNth, ihl]
 
+/-! ### the tamper theorem -/
+
+theorem encTag_inj (key : Nat) (t t' : Tag) (h : encTag key t = encTag key t') : t = t' := by
+  obtain ⟨pl, n, v⟩ := t
+  obtain ⟨pl', n', v'⟩ := t'
+  cases pl <;> cases pl' <;> simp [encTag, encS] at h ⊢ <;> exact h
+
+theorem map_encTag_inj (key : Nat) : ∀ (ts ts' : List Tag), ts.map (encTag key) = ts'.map (encTag key) → ts = ts' := by
+  intro ts
+  induction ts with
+  | nil => intro ts' h; cases ts' with
+    | nil => rfl
+    | cons a l => simp at h
+  | cons t ts ih =>
+    intro ts' h
+    cases ts' with
+    | nil => simp at h
+    | cons t' ts' =>
+      simp only [List.map_cons, List.cons.injEq] at h
+      rw [encTag_inj key t t' h.1, ih ts' h.2]
+
+theorem encRow_inj (pid key pid' key' : Nat) (rec rec' : RecSpec) (h : encRow pid key rec = encRow pid' key' rec') :
+    pid = pid' ∧ key = key' ∧ rec = rec' := by
+  obtain ⟨k, c, n, v, ts⟩ := rec
+  obtain ⟨k', c', n', v', ts'⟩ := rec'
+  simp only [encRow, encS, Row.mk.injEq, Ct.valid.injEq] at h
+  obtain ⟨h1, h2, h3, h4, h5, h6⟩ := h
+  have hk : key = key' := h3.1
+  subst hk
+  refine ⟨h1, rfl, ?_⟩
+  rw [h2, h3.2.2.2.2, h4.2.2.2.2, h5.2.2.2.2, map_encTag_inj key ts ts' h6]
+
+theorem set_pid (r : Row) (c : Col) (x : Ct) : (r.set c x).pid = r.pid := by cases c <;> rfl
+
+theorem readAs_safe (ps : List ProfSpec) (profile : String) (db : Db) (pid key : Nat) (W : List Entry)
+    (hW : ∀ e ∈ W, Written ps profile e) (hok : ∀ r ∈ db.items, RowOK W pid key r) (r : Read) (a : Answer)
+    (h : readAs db pid key r = .ok a) : AnswerSafe ps profile a := by
+  cases r with
+  | fetch k c n =>
+    unfold readAs at h
+    obtain ⟨eo, he, h⟩ := bind_eq_ok _ _ _ h
+    injection h with h; subst h
+    cases eo with
+    | none => trivial
+    | some e => exact hW e (fetch_safe W db pid key k c n e hok he)
+  | scan k c =>
+    unfold readAs at h
+    obtain ⟨es, he, h⟩ := bind_eq_ok _ _ _ h
+    injection h with h; subst h
+    intro e hm
+    exact hW e (scan_safe W db pid key k c es hok he e hm)
+  | count k c =>
+    unfold readAs at h
+    injection h with h; subst h; trivial
+
+/-- rows of the written store are `RowOK` for a session on the k-th profile, whatever its key -/
+theorem store_rowOK (ps : List ProfSpec) (k key : Nat) (p : ProfSpec) (hp : ps[k]? = some p) :
+    ∀ r ∈ itemRows 0 ps, RowOK (p.recs.map RecSpec.entry) (k + 1) key r := by
+  intro r hr
+  obtain ⟨q, p', rec, h1, h2, h3⟩ := mem_itemRows ps 0 r hr
+  simp only [Nat.zero_add] at h3
+  subst h3
+  apply genuine_rowOK
+  intro hk _
+  have : k = q := by omega
+  subst this
+  rw [hp] at h1
+  injection h1 with h1
+  subst h1
+  exact List.mem_map.mpr ⟨rec, h2, rfl⟩
+
+/-- what key resolution can give when at most one `profile_key` was replaced (by `w`) -/
+theorem resolve_cases (chk : Bool) (sk : Nat) (ps : List ProfSpec) (items : List Row) (i : Nat) (w : Wrapped) (profile : String) :
+    match resolveWith chk ⟨setKeyNth w i (profileRows sk 0 ps), items⟩ sk profile with
+    | .ok (pid, key) => ∃ k p, ps[k]? = some p ∧ p.name = profile ∧ pid = k + 1 ∧ (key = k + 1 ∨ w = .valid sk key)
+    | .err _ => True
+    | .panic => chk = false ∧ ∃ len, len < 12 ∧ w = .garbage len := by
+  unfold resolveWith
+  cases hf : (setKeyNth w i (profileRows sk 0 ps)).find? (fun p => p.name = profile) with
+  | none => simp
+  | some pr =>
+    obtain ⟨k, p, h1, h2, h3, h4⟩ := find_profile sk w profile ps 0 i pr hf
+    simp only [Nat.zero_add] at h3 h4
+    simp only
+    cases h4 with
+    | inl h4 =>
+      simp only [h4, unwrapWith, if_true]
+      exact ⟨k, p, h1, h2, h3, Or.inl rfl⟩
+    | inr h4 =>
+      rw [h4]
+      cases w with
+      | valid sk' pk =>
+        simp only [unwrapWith]
+        by_cases hs : sk' = sk
+        · subst hs
+          simp only [if_true]
+          exact ⟨k, p, h1, h2, h3, Or.inr (by simp)⟩
+        · simp [hs]
+      | garbage len =>
+        simp only [unwrapWith]
+        by_cases hl : len < 12
+        · cases chk with
+          | true => simp [hl]
+          | false => simp only [hl, if_true]; exact ⟨by simp, len, hl, rfl⟩
+        · simp [hl]
+
+theorem read_of_tampered_row (chk : Bool) (sk : Nat) (ps : List ProfSpec) (db : Db) (ht : Tampered sk ps db)
+    (profile : String) (r : Read) :
+    match readWith chk db sk profile r with
+    | .ok a => AnswerSafe ps profile a
+    | .err _ => True
+    | .panic => chk = false ∧ ∃ i len, len < 12 ∧ db = tamperProfile (store sk ps) i (.garbage len) := by
+  -- every case is "profiles = written profiles with at most one key replaced by w; items with at most one admissible cell replaced"
+  have key_lemma : ∀ (items : List Row) (i : Nat) (w : Wrapped),
+      (∀ k p, ps[k]? = some p → ∀ key, (key = k + 1 ∨ w = .valid sk key) →
+        ∀ r ∈ items, RowOK (p.recs.map RecSpec.entry) (k + 1) key r) →
+      match readWith chk ⟨setKeyNth w i (profileRows sk 0 ps), items⟩ sk profile r with
+      | .ok a => AnswerSafe ps profile a
+      | .err _ => True
+      | .panic => chk = false ∧ ∃ len, len < 12 ∧ w = .garbage len := by
+    intro items i w hrows
+    unfold readWith
+    have hres := resolve_cases chk sk ps items i w profile
+    cases hr : resolveWith chk ⟨setKeyNth w i (profileRows sk 0 ps), items⟩ sk profile with
+    | err e => simp
+    | panic => simp only [hr] at hres; simpa using hres
+    | ok pk =>
+      obtain ⟨pid, key⟩ := pk
+      simp only [hr] at hres
+      obtain ⟨k, p, h1, h2, h3, h4⟩ := hres
+      subst h3
+      simp only [bind_ok]
+      cases ha : readAs ⟨setKeyNth w i (profileRows sk 0 ps), items⟩ (k + 1) key r with
+      | panic => exact absurd ha (readAs_ne_panic _ _ _ _)
+      | err e => trivial
+      | ok a =>
+        simp only
+        apply readAs_safe ps profile _ (k + 1) key (p.recs.map RecSpec.entry) _ (hrows k p h1 key h4) r a ha
+        intro e he
+        exact ⟨p, List.mem_of_getElem? h1, h2, he⟩
+  cases ht with
+  | intact =>
+    have := key_lemma (itemRows 0 ps) (profileRows sk 0 ps).length (.valid (sk + 1) 0)
+      (fun k p hp key _ => store_rowOK ps k key p hp)
+    rw [setKeyNth_beyond] at this
+    change match readWith chk (store sk ps) sk profile r with
+      | .ok a => AnswerSafe ps profile a | .err _ => True | .panic => _ at this
+    cases hh : readWith chk (store sk ps) sk profile r with
+    | ok a => simp only [hh] at this; exact this
+    | err e => trivial
+    | panic => simp only [hh] at this; obtain ⟨_, len, _, hl⟩ := this; cases hl
+  | item i c x q rec hrow hx =>
+    have := key_lemma (setNth c x i (itemRows 0 ps)) (profileRows sk 0 ps).length (.valid (sk + 1) 0) (by
+      intro k p hp key hkey r' hr'
+      have hkey' : key = k + 1 := by
+        cases hkey with
+        | inl h => exact h
+        | inr h => injection h with h _; omega
+      subst hkey'
+      cases mem_setNth c x _ i r' hr' with
+      | inl h => exact store_rowOK ps k (k + 1) p hp r' h
+      | inr h =>
+        obtain ⟨r0, h1, h2⟩ := h
+        have hrow' : (itemRows 0 ps)[i]? = some (encRow (q + 1) (q + 1) rec) := hrow
+        rw [hrow'] at h1
+        injection h1 with h1
+        subst h1 h2
+        by_cases hkq : k = q
+        · subst hkq
+          apply tampered_rowOK _ k rec c x hx
+          obtain ⟨q', p', rec', g1, g2, g3⟩ := mem_itemRows ps 0 _ (List.mem_of_getElem? hrow')
+          simp only [Nat.zero_add] at g3
+          obtain ⟨e1, _, e3⟩ := encRow_inj _ _ _ _ _ _ g3
+          have : k = q' := by omega
+          subst this e3
+          rw [hp] at g1
+          injection g1 with g1
+          subst g1
+          exact List.mem_map.mpr ⟨rec, g2, rfl⟩
+        · intro hpid
+          rw [set_pid] at hpid
+          simp only [encRow] at hpid
+          omega)
+    rw [setKeyNth_beyond] at this
+    change match readWith chk (tamperItem (store sk ps) i c x) sk profile r with
+      | .ok a => AnswerSafe ps profile a | .err _ => True | .panic => _ at this
+    cases hh : readWith chk (tamperItem (store sk ps) i c x) sk profile r with
+    | ok a => simp only [hh] at this; exact this
+    | err e => trivial
+    | panic => simp only [hh] at this; obtain ⟨_, len, _, hl⟩ := this; cases hl
+  | profile i w =>
+    have := key_lemma (itemRows 0 ps) i w (fun k p hp key _ => store_rowOK ps k key p hp)
+    change match readWith chk (tamperProfile (store sk ps) i w) sk profile r with
+      | .ok a => AnswerSafe ps profile a | .err _ => True | .panic => _ at this
+    cases hh : readWith chk (tamperProfile (store sk ps) i w) sk profile r with
+    | ok a => simp only [hh] at this; exact this
+    | err e => trivial
+    | panic =>
+      simp only [hh] at this
+      obtain ⟨hc, len, hlen, hl⟩ := this
+      subst hl
+      exact ⟨hc, i, len, hlen, rfl⟩
+
+/-! ### opening with a wrong key -/
+
+theorem profileRows_keys (sk : Nat) : ∀ (ps : List ProfSpec) (off : Nat) (pr : ProfileRow), pr ∈ profileRows sk off ps →
+    ∃ k, pr.key = .valid sk k := by
+  intro ps
+  induction ps with
+  | nil => intro off pr h; simp [profileRows] at h
+  | cons p ps ih =>
+    intro off pr h
+    simp only [profileRows, List.mem_cons] at h
+    cases h with
+    | inl h => exact ⟨off + 1, by rw [h]⟩
+    | inr h => exact ih (off + 1) pr h
+
+/-- opening the written store with anything but its own well-formed key fails with an error (no handle, no panic) -/
+theorem wrong_key_open_fails (chk : Bool) (sk : Nat) (ps : List ProfSpec) (method : Option Method) (pass : Pass) (profile : String)
+    (h : pass ≠ .key sk) : ∃ e, openWith chk (store sk ps) method pass profile = .err e := by
+  unfold openWith
+  split
+  · exact ⟨_, rfl⟩
+  · cases pass with
+    | empty => exact ⟨_, rfl⟩
+    | malformed => exact ⟨_, rfl⟩
+    | wrongLength => exact ⟨_, rfl⟩
+    | key sk' =>
+      have hne : sk ≠ sk' := fun e => h (by rw [e])
+      simp only
+      unfold resolveWith
+      cases hf : (store sk ps).profiles.find? (fun p => p.name = profile) with
+      | none => exact ⟨_, rfl⟩
+      | some pr =>
+        obtain ⟨k, hk⟩ := profileRows_keys sk ps 0 pr (List.mem_of_find?_eq_some hf)
+        simp only [hk, unwrapWith, hne, if_false]
+        exact ⟨_, rfl⟩
+
+/-- a wrong method is refused before any key is looked at -/
+theorem wrong_method_open_fails (chk : Bool) (db : Db) (method : Method) (pass : Pass) (profile : String) (h : method ≠ .raw) :
+    openWith chk db (some method) pass profile = .err .Input := by
+  unfold openWith
+  have : (some method ≠ none ∧ some method ≠ some Method.raw) := ⟨by simp, by simpa using h⟩
+  simp [this]
+
 end Askar.Tamper.Lemmas
